@@ -403,7 +403,11 @@ func (o *Bytes) BinaryOp(op token.Token, rhs Object) (Object, error) {
 			if len(o.Value)+len(rhs.Value) > MaxBytesLen {
 				return nil, ErrBytesLimit
 			}
-			return &Bytes{Value: append(o.Value, rhs.Value...)}, nil
+			// always allocate: appending in place would write into storage
+			// that other bytes values sliced from o still share
+			v := make([]byte, 0, len(o.Value)+len(rhs.Value))
+			v = append(v, o.Value...)
+			return &Bytes{Value: append(v, rhs.Value...)}, nil
 		}
 	}
 	return nil, ErrInvalidOperator
